@@ -107,6 +107,7 @@ type Host struct {
 	udp      map[int]*UDPConn
 	squat    map[string]bool // "tcp:port"
 	failNext map[string]int  // "tcp:port" -> remaining failures
+	failNth  map[string]int
 	nextEph  int
 	nextSrc  int
 	Conns    []*StreamConn
@@ -149,6 +150,29 @@ func (h *Host) Squat(network string, port int, on bool) { h.squat[network+":"+st
 // FailListen makes the next n Listen calls on the port fail.
 func (h *Host) FailListen(network string, port int, n int) {
 	h.failNext[network+":"+strconv.Itoa(port)] = n
+}
+
+// FailListenNth makes the nth Listen call (counting from now, 1-based) on the port fail once.
+func (h *Host) FailListenNth(network string, port int, nth int) {
+	if h.failNth == nil {
+		h.failNth = map[string]int{}
+	}
+	h.failNth[network+":"+strconv.Itoa(port)] = nth
+}
+
+func (h *Host) injected(key string) bool {
+	if n := h.failNext[key]; n > 0 {
+		h.failNext[key] = n - 1
+		return true
+	}
+	if n, ok := h.failNth[key]; ok {
+		if n <= 1 {
+			delete(h.failNth, key)
+			return true
+		}
+		h.failNth[key] = n - 1
+	}
+	return false
 }
 
 // BoundTCP returns the sorted list of bound TCP ports.
@@ -223,8 +247,7 @@ func (h *Host) listenTCP(ip IP, port int) (*TCPListener, error) {
 	}
 	a := &TCPAddr{IP: ip, Port: port}
 	key := "tcp:" + strconv.Itoa(port)
-	if n := h.failNext[key]; n > 0 {
-		h.failNext[key] = n - 1
+	if h.injected(key) {
 		h.ListenLog = append(h.ListenLog, fmt.Sprintf("listen tcp %d: injected failure", port))
 		return nil, addrInUse("listen", "tcp", a)
 	}
